@@ -1041,14 +1041,15 @@ func main() {
 				for ki, bk := range kinds {
 					for _, parkedFirst := range []bool{false, true} {
 						// quick tier: one kind and one variant per size (rotating); thorough: all of them
-						if !(e.Thorough || e.Search) && (ki != (b+int(e.Seed))%len(kinds) || parkedFirst != (b%3 == 1)) {
+						// quick tier: every kind at every size, one of the two variants (alternating); thorough: both
+						if !(e.Thorough || e.Search) && parkedFirst != ((b+ki+int(e.Seed))%3 == 0) {
 							continue
 						}
 						if stuckCases >= 2 || diverged >= maxDiverged || !time.Now().Before(genDeadline) {
 							continue
 						}
 						kmax := 6
-						if b%5 == 0 || e.Rnd.Intn(8) == 0 {
+						if e.Rnd.Intn(12) == 0 {
 							kmax = 40
 						}
 						g := runBacklog(e, typ, b, bk, parkedFirst, kmax)
